@@ -12,16 +12,107 @@ package main
 import (
 	"fmt"
 	"go/ast"
+	"go/parser"
+	"go/printer"
 	"go/token"
+	"path/filepath"
 	"strconv"
 	"strings"
 
 	"ssvharness/internal/gen"
 )
 
+// gen_c09 is purely syntactic (go/parser + go/printer on router/route.go, router/router.go and
+// domainset/matcher_domain.go): it does not type-check, so it does not need the source importer (which runs
+// `go list` for every transitive import of package router and takes minutes on a loaded machine).
+// Integer facts must therefore be plain integer literals in the source; anything else is GEN-BROKEN.
+
+type pkg struct {
+	fset  *token.FileSet
+	files []*ast.File
+	dir   string
+}
+
+func load(repo, dir string, names ...string) (*pkg, error) {
+	p := &pkg{fset: token.NewFileSet(), dir: dir}
+	for _, n := range names {
+		f, err := parser.ParseFile(p.fset, filepath.Join(repo, dir, n), nil, parser.ParseComments|parser.SkipObjectResolution)
+		if err != nil {
+			return nil, err
+		}
+		p.files = append(p.files, f)
+	}
+	return p, nil
+}
+
+// Src prints an AST node as source text on one line (canonical gofmt form).
+func (p *pkg) Src(n ast.Node) string {
+	var sb strings.Builder
+	printer.Fprint(&sb, p.fset, n)
+	return strings.Join(strings.Fields(sb.String()), " ")
+}
+
+// Func finds a function or method declaration: Func("", "f") or Func("*T", "M") / Func("T", "M").
+func (p *pkg) Func(recv, name string) (*ast.FuncDecl, error) {
+	for _, f := range p.files {
+		for _, d := range f.Decls {
+			fd, ok := d.(*ast.FuncDecl)
+			if !ok || fd.Name.Name != name {
+				continue
+			}
+			if recv == "" && fd.Recv == nil {
+				return fd, nil
+			}
+			if recv != "" && fd.Recv != nil && len(fd.Recv.List) == 1 {
+				if strings.TrimPrefix(p.Src(fd.Recv.List[0].Type), "*") == strings.TrimPrefix(recv, "*") {
+					return fd, nil
+				}
+			}
+		}
+	}
+	return nil, fmt.Errorf("%s: function %s.%s not found", p.dir, recv, name)
+}
+
+// EvalInt accepts a decimal integer literal only.
+func (p *pkg) EvalInt(e ast.Expr) (string, bool) {
+	lit, ok := e.(*ast.BasicLit)
+	if !ok || lit.Kind != token.INT {
+		return "", false
+	}
+	v, err := strconv.ParseUint(lit.Value, 10, 64)
+	if err != nil {
+		return "", false
+	}
+	return strconv.FormatUint(v, 10), true
+}
+
+// ConstInt finds `const name = <integer literal>` at package level.
+func (p *pkg) ConstInt(name string) (string, error) {
+	for _, f := range p.files {
+		for _, d := range f.Decls {
+			gd, ok := d.(*ast.GenDecl)
+			if !ok || gd.Tok != token.CONST {
+				continue
+			}
+			for _, sp := range gd.Specs {
+				vs := sp.(*ast.ValueSpec)
+				for i, n := range vs.Names {
+					if n.Name == name && i < len(vs.Values) {
+						if v, ok := p.EvalInt(vs.Values[i]); ok {
+							return v, nil
+						}
+						return "", fmt.Errorf("%s.%s is not an integer literal: %s", p.dir, name, p.Src(vs.Values[i]))
+					}
+				}
+			}
+		}
+	}
+	return "", fmt.Errorf("%s.%s: no such constant", p.dir, name)
+}
+
 func main() {
 	gen.Main("C09", func(c *gen.Ctx, l *gen.Lean) error {
-		p, err := c.Load("router")
+		p, err := load(c.Repo, "router", "route.go", "router.go")
 		if err != nil {
 			return err
 		}
@@ -65,17 +156,22 @@ func main() {
 			}
 			l.StrDef(f.lean, p.Src(d.Body), "router: body of "+strings.TrimPrefix(f.recv+".", ".")+f.name)
 		}
-		ds, err := c.Load("domainset")
+		ds, err := load(c.Repo, "domainset", "matcher_domain.go")
 		if err != nil {
 			return err
 		}
-		return l.Consts(ds, "MaxLinearDomains")
+		v, err := ds.ConstInt("MaxLinearDomains")
+		if err != nil {
+			return err
+		}
+		l.NatDef("MaxLinearDomains", v, "domainset.MaxLinearDomains")
+		return nil
 	})
 }
 
 // ---------- (*XPortSetCriterion).Meet ----------
 
-func guardsZero(p *gen.Pkg, m *ast.FuncDecl, portExpr string) (bool, error) {
+func guardsZero(p *pkg, m *ast.FuncDecl, portExpr string) (bool, error) {
 	b := m.Body.List
 	switch len(b) {
 	case 1:
@@ -93,7 +189,7 @@ func guardsZero(p *gen.Pkg, m *ast.FuncDecl, portExpr string) (bool, error) {
 	return false, fmt.Errorf("unrecognised body: %s", p.Src(m.Body))
 }
 
-func ifReturnsFalseNil(p *gen.Pkg, s ast.Stmt) bool {
+func ifReturnsFalseNil(p *pkg, s ast.Stmt) bool {
 	is, ok := s.(*ast.IfStmt)
 	if !ok || is.Else != nil || is.Init != nil || len(is.Body.List) != 1 {
 		return false
@@ -106,7 +202,7 @@ func ifReturnsFalseNil(p *gen.Pkg, s ast.Stmt) bool {
 type addCall struct{ recv, typ, invert string }
 
 // criterionType names the criterion constructed by the first argument of an AddCriterion call.
-func criterionType(p *gen.Pkg, e ast.Expr, locals map[string]string) (string, error) {
+func criterionType(p *pkg, e ast.Expr, locals map[string]string) (string, error) {
 	switch x := e.(type) {
 	case *ast.CompositeLit:
 		return p.Src(x.Type), nil
@@ -134,7 +230,7 @@ func criterionType(p *gen.Pkg, e ast.Expr, locals map[string]string) (string, er
 // collect walks one top-level statement and returns, in source order, every AddCriterion call and every
 // `route.criteria = <group>.AppendTo(route.criteria)`; it also returns the conditions under which
 // criterion-valued expressions are chosen (only if/else and switch are expected on the way).
-func collect(p *gen.Pkg, s ast.Stmt) (calls []addCall, appendTo []string, err error) {
+func collect(p *pkg, s ast.Stmt) (calls []addCall, appendTo []string, err error) {
 	locals := map[string]string{}
 	ast.Inspect(s, func(n ast.Node) bool {
 		if err != nil {
@@ -191,7 +287,7 @@ var sectionOf = map[string]string{
 	"DestResolvedIPCriterion": "toAddr", "DestGeoIPCountryCriterion": "toAddr", "DestResolvedGeoIPCountryCriterion": "toAddr",
 }
 
-func routeFacts(p *gen.Pkg, fd *ast.FuncDecl, l *gen.Lean) error {
+func routeFacts(p *pkg, fd *ast.FuncDecl, l *gen.Lean) error {
 	var (
 		order, prechecks []string
 		allCalls         []addCall
@@ -313,7 +409,7 @@ func routeFacts(p *gen.Pkg, fd *ast.FuncDecl, l *gen.Lean) error {
 	return nil
 }
 
-func caseStrings(p *gen.Pkg, sw *ast.SwitchStmt, i int) ([]string, error) {
+func caseStrings(p *pkg, sw *ast.SwitchStmt, i int) ([]string, error) {
 	if i >= len(sw.Body.List) {
 		return nil, fmt.Errorf("switch %s has no case %d", p.Src(sw.Tag), i)
 	}
@@ -338,7 +434,7 @@ func caseStrings(p *gen.Pkg, sw *ast.SwitchStmt, i int) ([]string, error) {
 //	switch portCount { case 0: panic(...) case S: AddCriterion(XPortCriterion(portSet.First()), inv)
 //	case A: return Route{}, ... default: portRangeCount := portSet.RangeCount()
 //	  if portRangeCount <= N { AddCriterion(XPortRangeSetCriterion(portSet.RangeSet()), inv) } else { v := XPortSetCriterion(portSet); AddCriterion(&v, inv) } }
-func portSwitch(p *gen.Pkg, s ast.Stmt) (single, all, maxr string, err error) {
+func portSwitch(p *pkg, s ast.Stmt) (single, all, maxr string, err error) {
 	var sw *ast.SwitchStmt
 	ast.Inspect(s, func(n ast.Node) bool {
 		if x, ok := n.(*ast.SwitchStmt); ok && p.Src(x.Tag) == "portCount" {
